@@ -58,6 +58,7 @@ fn main() {
         "C01" => bar::run(seed, tier, &mut out, true, false),
         "C19" => bar::run(seed, tier, &mut out, false, false),
         "C04B" => bar::run(seed, tier, &mut out, true, true),
+        "C01F" => bar::run_outage(seed, tier, &mut out),
         "C03" | "C02" | "C04" => multi::run(seed, tier, &mut out, false),
         "C03b" => multi::run(seed, tier, &mut out, true),
         "C19M" => multi::run_small(seed, tier, &mut out),
